@@ -756,6 +756,23 @@ class SpecClassMetadata:
             if parent_metadata:
                 attrs_inherited.update(parent_metadata.attrs)
 
+        # Where several bases know an attribute (a diamond), the specification
+        # that counts is that of the nearest class along the MRO that specified
+        # the attribute itself, not one that a base merely passes on.
+        for attr in attrs_inherited:
+            for klass in spec_cls.mro()[1:]:
+                klass_metadata = klass.__dict__.get("__spec_class__")
+                attr_spec = getattr(klass_metadata, "attrs", {}).get(attr)
+                if attr_spec is not None and not any(
+                    getattr(getattr(base, "__spec_class__", None), "attrs", {}).get(
+                        attr
+                    )
+                    is attr_spec
+                    for base in klass.__bases__
+                ):
+                    attrs_inherited[attr] = attr_spec
+                    break
+
         return cls(
             owner=spec_cls,
             key=metadata.key,
